@@ -12,8 +12,9 @@
 (*   x, wx   the same values / weights as fixed-point numbers (estimators only; <<>> for smoothers)             *)
 (*   flag    scale_to_sd (mad, wmad)                            hasinit, init   `initial=` on the grid (bivar, mse) *)
 (*   c       shift in grid units          fn, fd  scale factor  wn, wd  smoother width wn/wd (0/0 = None)       *)
-(*   out, isnan / out2, isnan2   result(s) as Num.FxObs triple + NaN flag;   err / err2  exception type or ""   *)
-(*   outs    smoother output: sequence of [neg, hi, lo, fin]    outg  the same in grid units: <<floor, exact?>> *)
+(*   out, isnan / out2, isnan2   result(s) as fixed-point numbers (round(|x| * 10^12), any magnitude) + NaN/inf *)
+(*                               flag;   err / err2  exception type or ""                                       *)
+(*   outs    smoother output: sequence of [n, m, fin]           outg  the same in grid units: <<floor, exact?>> *)
 (*   outi    integer result (wing, guess)                                                                       *)
 EXTENDS Stats, FiniteSetsExt
 
@@ -28,16 +29,17 @@ Internals   == {"wing", "pad", "guess"}
 
 (* ------------------------------------------------------------------------------------------ record access *)
 (* x[i] / wx[i] are v[i]/U and w[i]/WU already in fixed point (Num.Z records, written by the encoder): converting *)
-(* 400 values costs TLC 0.2 s, and every clause needs them                                                         *)
+(* 400 values costs TLC 0.2 s, and every clause needs them.  MC_Stats derives x from v with Stats.FxGrid and the   *)
+(* harness compares its own encoding with that on every enumerated state.                                          *)
 Keep(r) == SelectSeq([i \in 1..Len(r.v) |-> i], LAMBDA i : ~r.nan[i])       \* NaN values are ignored ...
 Xs(r) == LET k == Keep(r) IN IF Len(k) = Len(r.v) THEN r.x ELSE [j \in 1..Len(k) |-> r.x[k[j]]]
 Ws(r) == LET k == Keep(r) IN                                                 \* ... together with their weights; NaN weight = 0
          [j \in 1..Len(k) |-> IF r.wnan[k[j]] THEN ZZero ELSE r.wx[k[j]]]
-Out(r) == FxObs(r.out)
-Out2(r) == FxObs(r.out2)
+Out(r) == r.out
+Out2(r) == r.out2
 InitFx(r) == FxGrid(r.init, r.U)
 FxEq(a, b) == ZCmp(a, b) = 0
-Obs(o) == FxObs(o)
+Obs(o) == [n |-> o.n, m |-> o.m]
 NoErr(r) == r.err = "" /\ ~r.isnan
 NoErr2(r) == r.err = "" /\ r.err2 = "" /\ ~r.isnan /\ ~r.isnan2
 Tol9 == FxTol9
@@ -319,11 +321,10 @@ RollMedCode(x, wn, wd) ==
          ELSE [err |-> "", out |-> RollingMedian(x, wg)]
 
 (* the A-layer's outputs for an input record (same field names as a trace record) *)
-BlankOut == [out |-> FxToObs(ZZero), isnan |-> FALSE, out2 |-> FxToObs(ZZero), isnan2 |-> FALSE,
+BlankOut == [out |-> ZZero, isnan |-> FALSE, out2 |-> ZZero, isnan2 |-> FALSE,
              outs |-> <<>>, outg |-> <<>>, outi |-> 0, err |-> "", err2 |-> ""]
 GridOut(x) == [i \in 1..Len(x) |-> <<x[i], TRUE>>]
-ObsOut(x, unit) == [i \in 1..Len(x) |-> LET o == FxToObs(FxGrid(x[i], unit)) IN
-                                        [neg |-> o.neg, hi |-> o.hi, lo |-> o.lo, fin |-> TRUE]]
+ObsOut(x, unit) == [i \in 1..Len(x) |-> LET o == FxGrid(x[i], unit) IN [n |-> o.n, m |-> o.m, fin |-> TRUE]]
 ALayer(r) ==
     IF r.est \in Estimators THEN
         LET a == Xs(r)  w == IF r.est \in WeightedEst THEN Ws(r) ELSE <<>>
@@ -331,7 +332,7 @@ ALayer(r) ==
             a2 == IF r.kind = "shift" THEN ShiftSeq(a, FxGrid(r.c, r.U))
                   ELSE IF r.kind = "scale" THEN ScaleSeq(a, r.fn, r.fd) ELSE a
             r2 == IF r.kind = "single" THEN r1 ELSE Decorated(r.est, a2, w, r.flag, r.hasinit, InitFx(r))
-        IN [BlankOut EXCEPT !.out = FxToObs(r1.val), !.isnan = r1.nan, !.out2 = FxToObs(r2.val), !.isnan2 = r2.nan]
+        IN [BlankOut EXCEPT !.out = r1.val, !.isnan = r1.nan, !.out2 = r2.val, !.isnan2 = r2.nan]
     ELSE IF r.est = "rollmed" THEN
         LET m == RollMedCode(r.v, r.wn, r.wd) IN
         [BlankOut EXCEPT !.err = m.err, !.outg = GridOut(m.out), !.outs = ObsOut(m.out, r.U)]
